@@ -51,18 +51,18 @@ Definition typed (o : option (token * text)) : option (Z * text) :=
 (* 2.  Generic: scanning an automaton whose reachable state sets pass the checks *)
 (* ====================================================================== *)
 Section Generic.
-  Variable tbl : list (nat * list ledge).
-  Variable acc : list (nat * Z).
+  Variable tbl : list (N * list ledge).
+  Variable acc : list (N * Z).
   Variable cf : nat.
-  Variable init : list (list (N * N) * nat).
-  Variable loopQ : list nat.    (* the set of states reached after two digits (instantiated by a computation) *)
+  Variable init : list (list (N * N) * N).
+  Variable loopQ : list N.      (* the set of states reached after two digits (instantiated by a computation) *)
 
-  Definition step (es : list (list (N * N) * nat)) (c : ascii) : list nat := clos tbl cf (targets es (N_of_ascii c)).
-  Definition out (Q : list nat) : list (list (N * N) * nat) := out_chars tbl Q.
-  Definition upd (Q : list nat) (r : text) (best : option (Z * text)) : option (Z * text) :=
+  Definition step (es : list (list (N * N) * N)) (c : ascii) : list N := clos tbl cf (targets es (N_of_ascii c)).
+  Definition out (Q : list N) : list (list (N * N) * N) := out_chars tbl Q.
+  Definition upd (Q : list N) (r : text) (best : option (Z * text)) : option (Z * text) :=
     match accepting acc Q with Some ty => Some (ty, r) | None => best end.
   (* the scan just after the state set Q has been entered, r = the characters still to be read *)
-  Definition scanS (Q : list nat) (r : text) (best : option (Z * text)) : option (Z * text) :=
+  Definition scanS (Q : list N) (r : text) (best : option (Z * text)) : option (Z * text) :=
     scan tbl acc cf (out Q) r (upd Q r best).
 
   Lemma scan_cons : forall es c r best,
@@ -70,10 +70,10 @@ Section Generic.
   Proof. intros es c r best. cbn [scan]. unfold step, scanS, upd, out. destruct (clos tbl cf _); reflexivity. Qed.
 
   Lemma clos_nil : clos tbl cf [] = [].
-  Proof. unfold clos. destruct (cf + length (@nil nat))%nat; reflexivity. Qed.
+  Proof. unfold clos. destruct (cf + length (@nil N))%nat; reflexivity. Qed.
 
   (* no character edge leaves Q *)
-  Definition dead (Q : list nat) : bool := is_nil (out Q).
+  Definition dead (Q : list N) : bool := is_nil (out Q).
   Lemma dead_scan : forall Q r best, dead Q = true -> scan tbl acc cf (out Q) r best = best.
   Proof.
     intros Q r best H. apply is_nil_true in H. rewrite H. destruct r as [|c r]; [reflexivity|].
@@ -81,7 +81,7 @@ Section Generic.
   Qed.
 
   (* ---- chains: after Q exactly the word w can follow, and only its end accepts (type ty) ---- *)
-  Fixpoint chain_check (Q : list nat) (w : text) (ty : Z) : bool :=
+  Fixpoint chain_check (Q : list N) (w : text) (ty : Z) : bool :=
     match w with
     | [] => match accepting acc Q with Some ty' => Z.eqb ty' ty | None => false end && dead Q
     | a :: w' =>
@@ -108,11 +108,11 @@ Section Generic.
   Qed.
 
   (* ---- the numeral loop: Q accepts `g` and is closed under digits; nothing else follows ---- *)
-  Definition list_nat_eqb (a b : list nat) : bool := if list_eq_dec Nat.eq_dec a b then true else false.
-  Definition loop_check (Q : list nat) (g : Z) : bool :=
+  Definition list_N_eqb (a b : list N) : bool := if list_eq_dec N.eq_dec a b then true else false.
+  Definition loop_check (Q : list N) (g : Z) : bool :=
     match accepting acc Q with Some ty => Z.eqb ty g | None => false end &&
     (let es := out Q in
-     forallb (fun c => if is_digit c then list_nat_eqb (step es c) Q else is_nil (step es c)) all_ascii) &&
+     forallb (fun c => if is_digit c then list_N_eqb (step es c) Q else is_nil (step es c)) all_ascii) &&
     negb (is_nil Q).
 
   Lemma loop_scan : forall Q g, loop_check Q g = true -> forall r best,
@@ -126,7 +126,7 @@ Section Generic.
     - reflexivity.
     - rewrite scan_cons. pose proof (forall_ascii _ H2 c) as Hc. cbv beta in Hc.
       cbn [span_digits]. destruct (is_digit c).
-      + unfold list_nat_eqb in Hc. destruct (list_eq_dec Nat.eq_dec (step (out Q) c) Q) as [E|]; [|discriminate].
+      + unfold list_N_eqb in Hc. destruct (list_eq_dec N.eq_dec (step (out Q) c) Q) as [E|]; [|discriminate].
         rewrite E. destruct Q as [|s Q']; [discriminate|].
         rewrite IH. destruct (span_digits r) as [d rest]. reflexivity.
       + apply is_nil_true in Hc. rewrite Hc. reflexivity.
@@ -143,7 +143,7 @@ Section Generic.
       match accepting acc Q1 with Some ty' => Z.eqb ty' ty | None => false end &&
       forallb (fun c2 => match step es c2 with
                          | [] => negb (is_digit c2)
-                         | Q2 => is_digit c2 && list_nat_eqb Q2 loopQ
+                         | Q2 => is_digit c2 && list_N_eqb Q2 loopQ
                          end) all_ascii
     | _, _, _ => false
     end.
@@ -273,7 +273,7 @@ Section Generic.
           -- apply negb_true_iff in Hc2. rewrite Hc2. cbn [typed digits_val].
              replace (10 * 0 + digit_val c)%N with (digit_val c) by lia. rewrite Ety. reflexivity.
           -- apply andb_true_iff in Hc2. destruct Hc2 as [Hd2 Hl]. rewrite Hd2.
-             unfold list_nat_eqb in Hl. destruct (list_eq_dec Nat.eq_dec (s2 :: Q2') loopQ) as [El|]; [|discriminate].
+             unfold list_N_eqb in Hl. destruct (list_eq_dec N.eq_dec (s2 :: Q2') loopQ) as [El|]; [|discriminate].
              rewrite El. unfold loop_ok in Cl. rewrite Eg in Cl.
              rewrite (loop_scan _ _ Cl). destruct (span_digits r2) as [d rest] eqn:Es. cbn [typed snd].
              rewrite (antlr_type_great _ _ Eg); [reflexivity|].
